@@ -206,3 +206,15 @@ Definition r_keygen_stream (n : Z) (scalars : list Z) : list Z :=
                      ++ [b2z (sk_wf sk); b2z (pk_wf pk)]
   | None => [0]
   end.
+
+(** codecs: run a decoder on bytes; result = status (1 ok / 0 error / 9 panic), largest capacity requested,
+    number of unread bytes, re-encoded value *)
+From ZK Require Import Model.Wire Model.Codecs.
+Definition run_codec {A} (c : codec A) (bs : list Z) : list Z :=
+  match dec c bs with
+  | DOk a rest al => 1 :: al :: Z.of_nat (length rest) :: enc c a
+  | DErr al => [0; al]
+  | DPanic => [9]
+  end.
+Definition lock_okq (lock secret : K) (index : Z) : bool :=
+  match lock_of q_bls sha3_256_z enc_scalar secret index with Some l => feqb l lock | None => false end.
